@@ -167,7 +167,14 @@ pub mod verif {
                     Some(p2 as usize - base),
                 )
             };
-            (s1, s2, p1 as usize - base, o2, base, context.logs.verif_capacity())
+            (
+                s1,
+                s2,
+                p1 as usize - base,
+                o2,
+                base,
+                context.logs.verif_capacity(),
+            )
         })
     }
 
@@ -186,6 +193,11 @@ pub mod verif {
 
     /// Base address and length of the current thread's input bytes.
     pub fn input_base() -> (usize, usize) {
-        Context::with(|context| (context.input_bytes.as_ptr() as usize, context.input_bytes.len()))
+        Context::with(|context| {
+            (
+                context.input_bytes.as_ptr() as usize,
+                context.input_bytes.len(),
+            )
+        })
     }
 }
